@@ -1507,6 +1507,9 @@ class ProvBundle(object):
         # TODO: Check unification rules in the PROV-CONSTRAINTS document
         # This method simply merges the records having the same name
         merged_records = dict()
+        # Records are merged in a scratch bundle: resolving their names again
+        # must not register namespaces in this bundle
+        scratch = ProvBundle()
         records_by_type_and_id = defaultdict(list)
         for identifier, same_id_records in self._id_map.items():
             for record in same_id_records:
@@ -1515,7 +1518,9 @@ class ProvBundle(object):
             if len(records) > 1:
                 # more than one record having the same identifier
                 # merge the records
-                merged = records[0].copy()
+                merged = scratch.new_record(
+                    records[0].get_type(), records[0].identifier, records[0].attributes
+                )
                 for record in records[1:]:
                     merged.add_attributes(record.attributes)
                 # map all of them to the merged record
